@@ -121,8 +121,30 @@ def run(ck):
     proof_ok, failing = ck.proof_stage('MpVerif.C13.Props', 'MpVerif/C13/Props.lean', 'C13_',
                                         ['MpVerif/C13/*.lean'], expect_min=10)
     ck.log('proof stage: ok=%s failing=%s' % (proof_ok, failing[:8]))
+    # proof-only modules that need Mathlib (not imported by the driver): the chord-error lemma over the reals, and
+    # monotonicity / idempotence of the model's concrete rounding functions => C13_increasing for the IEEE instance
+    extra_thms = []
+    for mod, nmin in (('MpVerif.C13.PropsIEEE', 6), ('MpVerif.C13.Chord', 5)):
+        okm, outm = ck.lake([mod])
+        if not okm:
+            failing.append('%s does not build: %s' % (mod, outm[-300:]))
+            proof_ok = False
+            ck.cov['obligations'] = ck.cov.get('obligations', 0) + nmin
+            continue
+        aok, th, _ = ck.prop_theorems(mod, 'C13_')
+        badax = [(n, [a for a in ax if a not in ALLOWED_AXIOMS]) for n, ax in th]
+        badax = [x for x in badax if x[1]]
+        ck.cov['obligations'] = ck.cov.get('obligations', 0) + max(len(th), nmin)
+        if not aok or len(th) < nmin or badax:
+            failing.append('%s: audit (%d theorems, expected >= %d, bad axioms %s)' % (mod, len(th), nmin, badax[:3]))
+            proof_ok = False
+        else:
+            ck.cov['discharged'] = ck.cov.get('discharged', 0) + len(th)
+            extra_thms += [n for n, _ in th]
+    ck.cov['theorems'] = ck.cov.get('theorems', []) + extra_thms
+    ck.cov['checker_cmd'] = ck.cov.get('checker_cmd', '') + ' ; same for MpVerif.C13.PropsIEEE and MpVerif.C13.Chord'
     if ck.tier == 'thorough' and proof_ok:
-        bad = ck.leanchecker(['MpVerif.C13.Props'])
+        bad = ck.leanchecker(['MpVerif.C13.Props', 'MpVerif.C13.PropsIEEE', 'MpVerif.C13.Chord'])
         if bad:
             failing += ['leanchecker rejected %s' % m for m in bad]
             proof_ok = False
@@ -414,7 +436,7 @@ def run(ck):
     for i in list(O)[:400:37]:
         ck.sample(' '.join(C[i][:10]) + ' -> ' + ' '.join(O[i][:14]))
     ck.assumptions += [
-        'rounding functions of the driver instance (rndD, rndS, sqrtD) are assumed monotone/idempotent (Lawful); they are compared with the hardware on every run, not proved',
+        'the model\'s rndD / rndS are PROVED monotone, idempotent, float-in-double (C13_lawful_ieee); that they coincide with the hardware\'s binary64/binary32 rounding (and sqrtD with the hardware sqrt) is compared on every run, not proved',
         'production build: -DNDEBUG (assert() off, MP_ASSERT_ALWAYS on), -O1, x86-64 SSE2 double arithmetic without FMA contraction',
         'the tolerance clause (|f - PL| <= tol at every real point) is explored numerically only: libm values, long double reference',
     ]
